@@ -105,7 +105,18 @@ func c17Bound(res *Result2, what string, adm []c17Adm, burst int, perMin int) {
 			}
 			max := float64(burst) + rate*(hi-lo).Seconds() + 1e-6
 			if float64(n) > max {
-				res.add("C17", "C17/rate-bound-exceeded", "%s: %d requests admitted between t=%s and t=%s; burst %d + %.3f/s allows %.2f; %v", what, n, lo, hi, burst, rate, max, res.Hist)
+				// One history is recorded as a known finding and told apart here: a call that was in progress for
+				// longer than the sweep's idle limit (its caller descheduled in the middle of Validate while everybody
+				// else slept ten minutes) still holds the limiter the sweep evicted meanwhile; the client's next
+				// request gets a new, full bucket, and the stale one lets one more request through.
+				class := "C17/rate-bound-exceeded"
+				for _, a := range adm {
+					if a.ret-a.call >= 10*time.Minute {
+						class += "/call-outlived-its-limiter"
+						break
+					}
+				}
+				res.add("C17", class, "%s: %d requests admitted between t=%s and t=%s; burst %d + %.3f/s allows %.2f; %v", what, n, lo, hi, burst, rate, max, res.Hist)
 				return
 			}
 		}
